@@ -189,7 +189,7 @@ func runLIT(c *Ctx, r *Result, rule string) int {
 					okv = e
 				}
 			}
-			if okv == nil || !domGuard(st.Block(), func(cond ssa.Value) (int, bool) { return 0, cond == okv }) {
+			if okv == nil || !domGuard(st.Block(), func(cond ssa.Value) (int, bool) { return boolEdge(cond, okv, true) }) {
 				return "the node is built without testing unescape's ok result (a malformed escape must be a compile error)"
 			}
 			return ""
